@@ -16,7 +16,7 @@ from sim.chaingen import BlockTree, ChainGen
 from sim.daemon import SimDaemon, DaemonNet, FaultPlan
 
 os.environ.update(DB_DIRECTORY='/db', COIN='BitcoinSV', NET='regtest', ALLOW_ROOT='1',
-                  DB_ENGINE='simdb')
+                  DB_ENGINE='leveldb')
 
 from electrumx.lib.coins import BitcoinSVRegtest            # noqa: E402
 from electrumx.server.env import Env                        # noqa: E402
@@ -305,7 +305,7 @@ class World:
                    COST_SOFT_LIMIT=str(k['cost_limits'][0]),
                    COST_HARD_LIMIT=str(k['cost_limits'][1]), LOG_SESSIONS='0',
                    DB_DIRECTORY=self.real_storage or '/db',
-                   DB_ENGINE='leveldb' if self.real_storage else 'simdb')
+                   DB_ENGINE='leveldb')
         if k['extra_env']:
             env.update(k['extra_env'])
         for key in ('REPORT_SERVICES', 'TOR_PROXY_HOST', 'TOR_PROXY_PORT', 'FORCE_PROXY',
